@@ -10,6 +10,9 @@
 //!
 //! stdin: one scenario per line, actions separated by ';'
 //!     do <call> | start <call> | rel <n> | run | ps <n>
+//!     | wait (ActorCell::wait(None): polled once and kept; once the actor has exited every kept wait must be complete)
+//!     | mode kids <n> (the target supervises n children; the call X stops one of them, so a supervision event
+//!       reaches the target while it works through its mailbox; the target ignores the event)
 //!     | mode instant | go | mode remote | tick (= run, then 2 s of virtual time pass)
 //!     (mode instant: the target is created with spawn_instant and its pre_start parks at a gate (it
 //!      links itself to the supervisor first, so the exit reason stays observable); `go` opens the gate.
@@ -66,6 +69,8 @@ enum Call {
     Send(Arc<Spec>),
     /// 0 drain(); 1 supervisor.drain_children(); 2 drain_and_wait(Some); 3 drain_and_wait(None)
     Drain(u8),
+    /// stop one of the target's children (mode kids)
+    KidStop,
     Stop,
     Kill,
 }
@@ -152,6 +157,10 @@ impl<'a> P<'a> {
             b'T' => {
                 self.i += 1;
                 Call::Stop
+            }
+            b'X' => {
+                self.i += 1;
+                Call::KidStop
             }
             b'K' => {
                 self.i += 1;
@@ -244,6 +253,9 @@ struct Ctx {
     kept: Mutex<Vec<Box<dyn std::any::Any + Send>>>,
     /// registry name of the target
     name: OnceLock<String>,
+    /// mode kids: number of children to spawn, and the children still alive
+    n_kids: std::sync::atomic::AtomicUsize,
+    kids: Mutex<Vec<ActorCell>>,
     /// drain_and_wait futures that were polled once and are still pending
     waits: Mutex<Vec<std::pin::Pin<Box<dyn std::future::Future<Output = bool> + Send>>>>,
 }
@@ -286,6 +298,8 @@ impl Ctx {
             pre_gate: OnceLock::new(),
             kept: Mutex::new(Vec::new()),
             name: OnceLock::new(),
+            n_kids: std::sync::atomic::AtomicUsize::new(0),
+            kids: Mutex::new(Vec::new()),
             waits: Mutex::new(Vec::new()),
         })
     }
@@ -605,6 +619,11 @@ fn perform(ctx: &Arc<Ctx>, c: &Call, gate: Option<Arc<Gate>>) {
             };
             ctx.ev(format!("EDrainEnd {}", coq_bool(ok)));
         }
+        Call::KidStop => {
+            if let Some(k) = ctx.kids.lock().unwrap().pop() {
+                k.stop(None);
+            }
+        }
         Call::Stop => {
             ctx.ev("EStopReq".into());
             ctx.cell().stop(None);
@@ -629,6 +648,19 @@ impl Actor for Target {
             myself.link(sup.clone());
             gate.acquire().await.expect("gate").forget();
         }
+        for _ in 0..self.0.n_kids.load(std::sync::atomic::Ordering::SeqCst) {
+            let (k, _) = Actor::spawn_linked(None, Kid, (), myself.get_cell()).await?;
+            self.0.kids.lock().unwrap().push(k.get_cell());
+        }
+        Ok(())
+    }
+    async fn handle_supervisor_evt(
+        &self,
+        _: ActorRef<HMsg>,
+        _: SupervisionEvent,
+        _: &mut (),
+    ) -> Result<(), ActorProcessingErr> {
+        // a child came or went: of no concern to the mailbox
         Ok(())
     }
     async fn post_stop(&self, _: ActorRef<HMsg>, _: &mut ()) -> Result<(), ActorProcessingErr> {
@@ -651,6 +683,16 @@ impl Actor for Target {
             self.0.ev("EFail".into());
             return Err("scripted handler failure".into());
         }
+        Ok(())
+    }
+}
+
+struct Kid;
+impl Actor for Kid {
+    type Msg = ();
+    type State = ();
+    type Arguments = ();
+    async fn pre_start(&self, _: ActorRef<()>, _: ()) -> Result<(), ActorProcessingErr> {
         Ok(())
     }
 }
@@ -734,6 +776,10 @@ async fn run_case(line: &str) -> String {
     *REG.lock().unwrap() = None;
     let (sup, _sh) = Actor::spawn(None, Sup(ctx.clone()), ()).await.expect("sup");
     let instant = line.contains("mode instant");
+    if let Some(p) = line.find("mode kids ") {
+        let n: usize = line[p + 10..].split(|c: char| !c.is_ascii_digit()).next().unwrap().parse().expect("kids");
+        ctx.n_kids.store(n, std::sync::atomic::Ordering::SeqCst);
+    }
     let remote = line.contains("mode remote");
     let gate = Arc::new(tokio::sync::Semaphore::new(0));
     static CASE: std::sync::atomic::AtomicU64 = std::sync::atomic::AtomicU64::new(0);
@@ -779,6 +825,18 @@ async fn run_case(line: &str) -> String {
         match kw {
             "ps" | "mode" => {}
             "go" => gate.add_permits(1),
+            "wait" => {
+                let cell = ctx.cell().clone();
+                let mut fut: std::pin::Pin<Box<dyn std::future::Future<Output = bool> + Send>> = Box::pin(async move {
+                    let _ = cell.wait(None).await;
+                    true
+                });
+                let waker = futures::task::noop_waker();
+                let mut cx = std::task::Context::from_waker(&waker);
+                if fut.as_mut().poll(&mut cx).is_pending() {
+                    ctx.waits.lock().unwrap().push(fut);
+                }
+            }
             "do" => perform(&ctx, &parse_call(rest), None),
             "start" => {
                 let call = parse_call(rest);
@@ -821,8 +879,8 @@ async fn run_case(line: &str) -> String {
     }
     let status = ctx.cell().get_status() as u8;
     let log = ctx.log.lock().unwrap().clone();
-    // a drain_and_wait whose actor is Stopped must have returned
-    if status == 6 {
+    // once the actor has exited, every wait / drain_and_wait must have returned
+    if status == 6 || log.iter().any(|e| e.starts_with("EExit")) {
         quiesce().await;
         let waker = futures::task::noop_waker();
         let mut cx = std::task::Context::from_waker(&waker);
